@@ -1,6 +1,7 @@
 import AITB.Model.Proto
 import AITB.Model.Policies
 import AITB.Gen.C09
+import AITB.Model.VE
 open AITB AITB.Pol
 
 /-
@@ -21,6 +22,9 @@ open AITB AITB.Pol
     mc      <comp> n                            | policy[n] probs[n] ns { act }          Monte-Carlo tables: range / normalisation only
     esrl    <comp> n a N phases window k { act res } | (k+1)×( exploit probs[n] policy[n] act )
     sr      <comp> n k { nk mean[n] }           | nk1 (k+1)×( cur probs[n] policy[n] )
+    toptwo  <comp> n cnt[n] beta u k inner[k]   | act        inner = the next k answers of the (shadowed) inner Thompson policy, u drives pickBest
+    t3c     <comp> n cnt[n] mean[n] var beta best u0 nu us[nu] | act
+    fjoint  <comp> m A[m] nr { nk keys[nk] vals[nk] value } | act[m]   local payoff entries the policy maximises over; act must be in range and optimal by brute force
     joint   <comp> m A[m] act[m] opt val best   factored wrappers: joint action in range (opt=1: value `val` must equal brute-force `best`)
 
   Verdicts: `diff <comp> …` model ≠ implementation;  `fail <comp> <clause>` the property's own clause is false on the
@@ -315,7 +319,7 @@ def esrl : P String := do
   let step := fun (v : Verdict) (s : ESRL) (o : Bool × List Rat × List Rat × Nat) =>
     let (ex, pr, po, x) := o
     let v := v.diffIf (ex != s.exploit) s!"{comp} isExploiting model={s.exploit} impl={ex}"
-    let v := v.diffIf (!(closeL (tab n s.prob) pr)) s!"{comp} getActionProbability model={showL (tab n s.prob)} impl={showL pr}"
+    let v := v.diffIf (!(closeL (tab n (s.prob AITB.Gen.C09.esrlProbUsesFind)) pr)) s!"{comp} getActionProbability model={showL (tab n (s.prob AITB.Gen.C09.esrlProbUsesFind))} impl={showL pr}"
     let v := v.diffIf (!(closeL s.policy po)) s!"{comp} getPolicy model={showL s.policy} impl={showL po}"
     if inDoc then coherent v comp n pr po [x] else v
   let s0 := ESRL.init n a N phases window
@@ -354,6 +358,55 @@ def joint : P String := do
   let v := v.failIf (opt && !(closeQ tol val best)) s!"{comp} joint_not_optimal value={ratStr val} best={ratStr best}"
   return v.render
 
+def toptwoOp : P String := do
+  let comp ← P.tok; let n ← P.nat; let cnt ← P.rep P.nat n; let beta ← P.q; let u ← P.q
+  let k ← P.nat; let inner ← P.rep P.nat k; P.bar
+  let act ← P.nat; P.eof
+  let cf := fun i => cnt.getD i 0
+  let v : Verdict := { tag := "toptwo" }
+  let m := topTwo cf (decide (u < beta)) inner
+  let v := v.diffIf (m.isSome && m != some act) s!"{comp} sampleAction model={m} impl={act}"
+  let v := v.failIf (act ≥ n) s!"{comp} sample_out_of_range {act}"
+  -- property (selection given the draws): a challenger is never the leader; the leader is kept on its coin / when under-sampled
+  let v := match inner with
+    | b :: _ =>
+      let chall := cf b ≥ 2 && !(decide (u < beta))
+      let v := v.failIf (chall && act == b) s!"{comp} challenger_is_leader {act}"
+      v.failIf (!chall && act != b) s!"{comp} leader_not_returned act={act} best={b}"
+    | [] => v
+  if m.isNone then (if v.fails.isEmpty then return "skip toptwo_long_rejection" else return v.render) else
+  return v.render
+
+def t3cOp : P String := do
+  let comp ← P.tok; let n ← P.nat; let cnt ← P.rep P.nat n; let mean ← P.rep P.q n; let var ← P.q; let beta ← P.q
+  let best ← P.nat; let u0 ← P.q; let nu ← P.nat; let us ← P.rep P.q nu; P.bar
+  let act ← P.nat; P.eof
+  let cf := fun i => cnt.getD i 0
+  let mf := fn mean
+  let v : Verdict := { tag := "t3c" }
+  let m := t3c mf cf var beta n best u0 us
+  let v := v.diffIf (m != act) s!"{comp} sampleAction model={m} impl={act}"
+  let v := v.failIf (act ≥ n) s!"{comp} sample_out_of_range {act}"
+  -- property (selection given the draws): a challenger is never the leader and has minimal transportation cost
+  let challenger := n ≥ 2 && cf best ≥ 2 && !(decide (u0 < beta))
+  let cost := t3cCost mf cf var best
+  let v := v.failIf (challenger && act == best) s!"{comp} challenger_is_leader {act}"
+  let v := v.failIf (challenger && act < n && (List.range n).any (fun a => a != best && decide (cost a < cost act))) s!"{comp} challenger_not_min_cost act={act}"
+  let v := v.failIf (!challenger && act != best) s!"{comp} leader_not_returned act={act} best={best}"
+  return v.render
+
+def fjoint : P String := do
+  let comp ← P.tok; let m ← P.nat; let A ← P.rep P.nat m; let nr ← P.nat
+  let rules ← P.rep (do let nk ← P.nat; let ks ← P.rep P.nat nk; let vs ← P.rep P.nat nk; let x ← P.q; pure (⟨ks, vs, x⟩ : AITB.VE.Rule)) nr
+  P.bar
+  let act ← P.rep P.nat m; P.eof
+  let v : Verdict := { tag := "fjoint" }
+  let v := v.failIf ((A.zip act).any (fun (a, x) => x ≥ a)) s!"{comp} joint_out_of_range {act}"
+  let best := AITB.VE.bruteMax A rules
+  let val := AITB.VE.payoffL rules act
+  let v := v.failIf (!(closeQ tol val best) && decide (val < best)) s!"{comp} joint_not_optimal value={ratStr val} best={ratStr best} act={act}"
+  return v.render
+
 def handle (toks : List String) : String :=
   let r := match toks with
     | "greedy" :: rest => P.run greedy rest
@@ -370,6 +423,9 @@ def handle (toks : List String) : String :=
     | "esrl" :: rest => P.run esrl rest
     | "sr" :: rest => P.run sr rest
     | "joint" :: rest => P.run joint rest
+    | "toptwo" :: rest => P.run toptwoOp rest
+    | "t3c" :: rest => P.run t3cOp rest
+    | "fjoint" :: rest => P.run fjoint rest
     | _ => none
   r.getD "bad-op"
 
